@@ -6,7 +6,7 @@ import ast
 from ..absint import TOP, DictV, FuncRef, Interp, ListOf, Obj, Tup, Const
 from ..domains.units import NM, PX, U, UnitsDomain
 from ..repo import norm_src, walk_no_nested, calls_in
-from .common import SinkTable, need_funcs
+from .common import SinkTable, need_funcs, rotation_centre_obligations
 
 LB = "acryo/loader/_base.py::LoaderBase."
 LG = "acryo/loader/_group.py::LoaderGroup."
@@ -169,3 +169,12 @@ def check(model, rep, tier):
     routing_clause(model, rep, funcs)
     from . import C01_frames
     C01_frames.frames_clause(model, rep, funcs)
+    ncen = 0
+    for a in ("acryo/alignment/_base.py::AlignmentResult.affine_matrix", "acryo/alignment/_base.py::RotationImplemented._get_template_and_mask_input"):
+        try:
+            f = funcs.get(a) or model.func(a)
+        except Exception:
+            f = None
+        if f is not None:
+            ncen += rotation_centre_obligations(model, rep, f, "2 frames")
+    rep.floor("A.centre", 2, "(affine_matrix and the template bank rotate about (n-1)/2)")
